@@ -112,10 +112,12 @@ M("C11", "guard-form-neutral", WR, "while block[k:]:", "while k < len(block):", 
 M("C13", "revert-rle-arm", NODES, "                if block_size == 0:\n                    # run-length record: 2-byte count then the byte to repeat.\n                    rle_count, rle_value = struct.unpack(\">HB\", ips_file.read(3))\n                    block = bytes([rle_value]) * rle_count\n                else:\n                    block = ips_file.read(block_size)\n",
   "                block = ips_file.read(block_size)\n", "C13.R1")
 M("C13", "rle-count-little-endian", NODES, 'rle_count, rle_value = struct.unpack(">HB", ips_file.read(3))', 'rle_count, rle_value = struct.unpack("<HB", ips_file.read(3))', "C13.R")
-M("C13", "offset-little-endian", NODES, 'struct.unpack(">BH", ips_file.read(3))', 'struct.unpack("<BH", ips_file.read(3))', "C13.R2")
+M("C13", "offset-little-endian", NODES, 'struct.unpack(">BH", record_header)', 'struct.unpack("<BH", record_header)', "C13.R2")
 M("C13", "delta-subtracted", NODES, "block_addr += self.delta", "block_addr -= self.delta", "C13.R3")
 M("C13", "emit-args-swapped", PROG, "writer.write_block(block, block_addr)", "writer.write_block(block_addr, block)", "C13.R3")
-M("C13", "break-on-short-header", NODES, '                block_addr_bytes = struct.unpack(">BH", ips_file.read(3))', '                header = ips_file.read(3)\n                if len(header) < 3:\n                    break\n                block_addr_bytes = struct.unpack(">BH", header)', "C13.R2")
+M("C13", "break-on-short-header", NODES, '                block_addr_bytes = struct.unpack(">BH", record_header)', '                if len(record_header) < 3:\n                    break\n                block_addr_bytes = struct.unpack(">BH", record_header)', "C13.R2")
+M("C13", "revert-eof-trailer-peek", NODES, '            while (record_header := ips_file.read(3)) != b"EOF":\n                block_addr_bytes = struct.unpack(">BH", record_header)', '            while ips_file.peek(3)[:3] != b"EOF":\n                block_addr_bytes = struct.unpack(">BH", ips_file.read(3))', "C13.R2")
+M("C13", "header-read-twice", NODES, 'block_addr_bytes = struct.unpack(">BH", record_header)', 'block_addr_bytes = struct.unpack(">BH", ips_file.read(3))', "C13.R2")
 M("C13", "missing-magic-accepted", NODES, "                raise RuntimeError(f'{self.ips_file_path} is missing \"PATCH\" header')", "                logger.warning(f'{self.ips_file_path} is missing \"PATCH\" header')", "C13.R2")
 M("C13", "ips-blocks-appended-to-block", PROG, "                for block_addr, block in node.blocks:\n                    writer.write_block(block, block_addr)", "                for block_addr, block in node.blocks:\n                    writer.write_block(block, block_addr)\n                    current_block_addr = block_addr", "C13.R3")
 M("C13", "delta-dropped-in-codegen", CG, "return [IncludeIpsNode(node.file_path, resolver, node.expression)]", "return [IncludeIpsNode(node.file_path, resolver)]", "C13.R4")
